@@ -85,7 +85,14 @@ func TestVerifReplay_C11(t *testing.T) {
 							ok = s.resume(&Config{})
 						}()
 						desc := fmt.Sprintf("offered=%v id=%q inbound=%d reply=%s failWrite=%v", offered, id, inbound, rp.name, failWrite)
-						if !offered || id == "" {
+						if !offered {
+							// no stream management on this stream: nothing is asked, and the old session's state is dropped
+							if ok || len(tr.w) != 0 || s.SMState.Id != "" || s.SMState.Inbound != 0 || s.SMState.UnAckQueue != nil {
+								report("%s: must not ask to resume and must discard the old session's state: ok=%v writes=%d state=%+v", desc, ok, len(tr.w), s.SMState)
+							}
+							continue
+						}
+						if id == "" {
 							if ok || len(tr.w) != 0 || s.SMState.Id != id || s.SMState.Inbound != inbound || s.SMState.UnAckQueue != q {
 								report("%s: must not ask to resume: ok=%v writes=%d state=%+v", desc, ok, len(tr.w), s.SMState)
 							}
